@@ -64,6 +64,37 @@ fn main() {
             st += stride;
         }
     }
+    // programs with tasks: every green thread's collector is validated (own heap, own cycle)
+    let n_mt = if quick { 10 } else { 60 };
+    let mut mt_jobs: Vec<(String, String, Sched)> = vec![];
+    for i in 0..n_mt {
+        let src = task_program(ctx.rng.next());
+        mt_jobs.push((format!("mt{i}"), src.clone(), Sched::From { start: ctx.rng.below(120), k: 1 }));
+        mt_jobs.push((format!("mt{i}"), src, Sched::Random { num: 4, max: 3, seed: ctx.rng.next() }));
+    }
+    let mt_refs = par_map(&mt_jobs, |(_, src, _)| run_scheduled_mt(src, &Sched::From { start: u64::MAX, k: 0 }, max_steps));
+    let mt_res = par_map(&mt_jobs, |(_, src, sched)| {
+        std::panic::catch_unwind(std::panic::AssertUnwindSafe(|| run_scheduled_mt(src, sched, max_steps))).ok()
+    });
+    for (((name, src, sched), r), rf) in mt_jobs.iter().zip(mt_res).zip(mt_refs.iter()) {
+        ctx.count("validated-run-with-tasks");
+        let Some(r) = r else {
+            ctx.spec_fail(format!("program {name} (tasks) under schedule {sched:?} crashed the host; source: {src:?}"));
+            continue;
+        };
+        if !r.outcome.starts_with("stopped") && (r.out != rf.out || r.outcome != rf.outcome) {
+            ctx.spec_fail(format!("program {name} (tasks) under schedule {sched:?} prints {:?} ({}) but {:?} ({}) with collection disabled; source: {src:?}", r.out, r.outcome, rf.out, rf.outcome));
+        }
+        for s in r.spec.iter().chain(r.cycle_spec.iter()).take(3) {
+            ctx.spec_fail(format!("program {name} (tasks) schedule {sched:?}: {s}; source: {src:?}"));
+        }
+        for (req, imp) in r.cases {
+            let kind = req.split(' ').nth(1).unwrap_or("?").to_string();
+            let ph = req.split(' ').nth(2).unwrap_or("?").to_string();
+            ctx.count(&format!("{kind}:{ph}:task-program"));
+            ctx.case(req, imp);
+        }
+    }
     // reference outputs
     let refs: Vec<(String, String)> = par_map(&progs, |(_, src)| run_nogc(src, max_steps));
     let refmap: HashMap<String, (String, String)> = progs.iter().zip(refs.iter()).map(|((n, _), r)| (n.clone(), r.clone())).collect();
